@@ -122,7 +122,7 @@ func untouchedOK(img *dbm.MemDB, pre modelSnap, op Op, wv int64) *Violation {
 			if v <= op.N {
 				continue
 			}
-		case "lvfo":
+		case "lvfo", "dvf":
 			if v > op.N {
 				continue
 			}
@@ -200,7 +200,7 @@ func crashOp(w *World, op Op) (v *Violation, st crashStats) {
 	if len(journal) >= 2 {
 		st.labels["split_op_"+op.Kind] = true
 	}
-	f7op := op.Kind == "save" || op.Kind == "prune" || op.Kind == "lvfo"
+	f7op := op.Kind == "save" || op.Kind == "prune" || op.Kind == "lvfo" || op.Kind == "dvf"
 	var natural []map[string][]byte
 	if f7op && Open("F7") && len(journal) >= 2 {
 		natural = naturalImages(base, preCfg, preCur, wops, op)
@@ -286,6 +286,14 @@ func naturalImages(base map[string][]byte, cfg Cfg, cur int64, wops []Op, op Op)
 		err = tr.DeleteVersionsTo(op.N)
 	case "lvfo":
 		err = tr.LoadVersionForOverwriting(op.N)
+	case "dvf":
+		// the other way to roll back: DeleteVersionsFrom, then a load of the target (on the same or on a new handle)
+		if err = tr.DeleteVersionsFrom(op.N + 1); err == nil {
+			if op.Flag {
+				tr = iavl.NewMutableTree(tdb, cfg.Cache, cfg.SkipFast, iavl.NewNopLogger(), opts...)
+			}
+			_, err = tr.LoadVersion(op.N)
+		}
 	default:
 		return nil
 	}
@@ -411,6 +419,13 @@ func checkCut(img *dbm.MemDB, skip bool, pre, post modelSnap, op Op, wops []Op, 
 		if err := tr.LoadVersionForOverwriting(op.N); err != nil {
 			return viol("retry", "repeating LoadVersionForOverwriting(%d) after the crash fails: %v", op.N, err)
 		}
+	case "dvf":
+		if err := tr.DeleteVersionsFrom(op.N + 1); err != nil {
+			return viol("retry", "repeating DeleteVersionsFrom(%d) after the crash fails: %v", op.N+1, err)
+		}
+		if lv, err := tr.LoadVersion(op.N); err != nil || lv != op.N {
+			return viol("retry", "LoadVersion(%d) after repeating DeleteVersionsFrom(%d) = %d,%v", op.N, op.N+1, lv, err)
+		}
 	}
 	fresh := iavl.NewMutableTree(img, 0, skip, iavl.NewNopLogger(), opts...)
 	if lv, err := fresh.Load(); err != nil || lv != post.latest {
@@ -496,6 +511,12 @@ func genCrashOp(t *rapid.T, w *World) Op {
 	}
 	if w.Latest > w.First && !(Open("F3") && w.Cfg.SkipFast && w.EverFast) {
 		cs = append(cs, cand{Op{Kind: "lvfo", N: rapid.Int64Range(w.First, w.Latest-1).Draw(t, "lvfoTo")}, 4})
+		// rollback by DeleteVersionsFrom + load of the target (same handle / new handle; as the first call on a new handle)
+		dvf := Op{Kind: "dvf", N: rapid.Int64Range(w.First, w.Latest-1).Draw(t, "dvfTo"), Flag: rapid.Bool().Draw(t, "dvfNewHandle")}
+		if rapid.IntRange(0, 3).Draw(t, "dvfCold") == 0 {
+			dvf.Read = "cold"
+		}
+		cs = append(cs, cand{dvf, 3})
 	}
 	if w.Latest > 0 {
 		// (re)open with the index enabled: first-time build when never indexed, forced rebuild when the label is stale
